@@ -42,7 +42,7 @@ StatusAllowed(r, status) ==
    IF status = "ok" THEN r.ok ELSE ("*" \in r.errs \/ status \in r.errs)
 
 RetNodeOps == {"add_child", "append_child", "prepend_child", "prepend_sibling", "append_sibling", "add_node"}
-MutOfData == {"set_data", "rename"}
+CopyOps == {"add_node", "add_tree", "tree_copy_to", "copy_children_to"}
 
 (* ------------------------------------------------------------------------ *)
 (* invariants on the logged post state + logged lookups (no expectation involved) *)
@@ -123,8 +123,10 @@ CheckRec(e) ==
                /\ Say(\A i \in 1..X.n : X.par[i] # -1 => e.post.knd[i] = X.knd[i], id, "C04", "post.knd", why)
                /\ Say(\A i \in 1..X.n : X.par[i] # -1 => e.post.meta[i] = X.meta[i], id, "C04", "post.meta", why))
          /\ Say(e.op.name \notin RetNodeOps \/ e.ret = r.ret, id, "C04", "ret", why))
-   \* --- C07: copy operations leave the source untouched
+   \* --- C07: copy operations are faithful and leave the source untouched
    /\ ("srcpost" \in DOMAIN e => Say(e.srcpost = "same", id, "C07", "source_changed", why))
+   /\ (e.op.name \in CopyOps /\ e.status = "ok" /\ r.ok =>
+         Say(e.post.n = X.n /\ SameState(X, e.post), id, "C07", "copy_not_faithful", why))
 
 ASSUME \A i \in 1..Len(Recs) : CheckRec(Recs[i])
 ASSUME PrintT(<<"CHECKED", Len(Recs)>>)
